@@ -2,6 +2,11 @@
 // definition and is copied into the evidence.
 package main
 
+import (
+	"fmt"
+	"os"
+)
+
 const mb = 1 << 20
 
 // raftexample's configuration; ElectionTick is only raised so that ticks never start an
@@ -41,5 +46,13 @@ func makeBoxes(tier string) []*Box {
 		Kinds: kinds(evCampaign, evPropose, evHeartbeat, evCrash, evRestart, evCompact),
 		Share: 40,
 	})
+	if os.Getenv("RAFTMC_TRIAL") != "" {
+		// development aid: RAFTMC_TRIAL="T P crashes hb compacts maxdev"
+		var t, p, c, h, k, d int
+		fmt.Sscan(os.Getenv("RAFTMC_TRIAL"), &t, &p, &c, &h, &k, &d)
+		bs = append(bs, &Box{ID: "T", Mode: "B", What: "trial", Cfg: cfgPlain(3, false),
+			Bud:   Budget{MaxTerm: uint64(t), Proposals: p, Drops: 9, Dups: 9, Crashes: c, Heartbeats: h, Compacts: k},
+			Depth: 400, MaxDev: d, Kinds: kinds(evCampaign, evPropose, evHeartbeat, evCrash, evRestart, evCompact), Share: 40})
+	}
 	return bs
 }
